@@ -177,6 +177,7 @@ class ServerCfg(dict):
     gex         {'style':..., 'moduli':[...]} or None (refuse: close on request)
     ssh1        dict    SSH-1 server: {'cmask','amask','hbits','hn','he','sbits','sn','se','pflags'}
     segment     int     deliver output in chunks of this many bytes
+    debug_kinds dict    {packet kind: n}: n MSG_DEBUG messages in front of every packet of that kind (kexreply, gexgroup, gexreply, ...)
     debug       int     number of MSG_DEBUG messages put before every reply
     mutate      callable(n, kind, idx, data) -> [items]  transformation of each outgoing message
     kexinit_with_banner bool  send KEXINIT right after the banner without waiting
@@ -224,7 +225,8 @@ class SshServer:
                 self.done = True
 
     def emit_packet(self, sock, kind, payload):
-        for _ in range(self.cfg.get('debug', 0)):
+        # SSH_MSG_DEBUG messages in front of every packet (`debug`), or only in front of packets of given kinds (`debug_kinds`)
+        for _ in range(self.cfg.get('debug', 0) + (self.cfg.get('debug_kinds') or {}).get(kind, 0)):
             dbg = bytes([MSG_DEBUG, 0]) + wire.string(b'debug message') + wire.string(b'')
             self.emit(sock, 'debug', wire.frame(dbg), perturbation=True)
         self.emit(sock, kind, wire.frame(payload))
